@@ -333,10 +333,15 @@ func init() {
 	for _, id := range []string{"C01", "C02"} {
 		for i, o := range props[id].Outside {
 			if o == "bytes >= 0x80 (unicode letters)" {
-				props[id].Outside[i] = "symbolic bytes >= 0x80 (non-ASCII text is concrete: the letters é, 日, 本)"
+				props[id].Outside[i] = "symbolic bytes >= 0x80 beyond VerifH_match_utf8's bound (elsewhere non-ASCII text is concrete: the letters é, 日, 本)"
 			}
 		}
 	}
+	utf := "fully symbolic bytes (0x00..0xff, no ASCII restriction): 4 rule sets with unicode literals / variables, path = {/, /é/, /日/} + 1..3 (quick) / 1..5 (thorough) symbolic bytes incl. multi-byte letters, numbers (No, Nl), non-letters, truncated and invalid UTF-8; unicode.IsLetter / IsNumber beyond Latin-1 are encoded exactly from the interpreted package's own range tables (intr_unicode.go)"
+	ext("C01", utf, HarnessSpec{Name: "VerifH_match_utf8", Covers: []string{"dispatched", "captured", "not-dispatched", "non-ascii-symbolic"}})
+	ext("C02", utf, HarnessSpec{Name: "VerifH_match_utf8", Covers: []string{"dispatched", "no-rule-matches", "non-ascii-valid"}})
+	ext("C16", "literal templates of 1..4 (quick) / 1..5 (thorough) fully symbolic bytes (no ASCII restriction): verdict per the grammar with Unicode letters / numbers, an accepted template routes its own text",
+		HarnessSpec{Name: "VerifH_template_utf8", Covers: []string{"rejected", "accepted-non-ascii"}})
 
 	ext("C04", "Content-Encoding truthfulness through ServeHTTP with a marking compressor registered as 'zz': Accept-Encoding in {absent, zz, gzip, *, 'zz;q=0, identity', 1..3 symbolic bytes} x request body plain / compressed",
 		HarnessSpec{Name: "VerifH_serveHTTP_encoding", Covers: []string{"plain-response", "compressed-request"}})
